@@ -3,14 +3,16 @@ import glob
 import os
 import sys
 
-from . import c03, common, extract, tlc
+from . import c03, c18, common, emit, extract, tlc
 
 
 def main():
     bad = 0
     with common.Scratch("setup") as s:
         extra = {"MC_LiteralData.tla": c03.data_module(c03.data()),
-                 "VyConfigData.tla": extract.config_module(extract.codepage())}
+                 "VyConfigData.tla": extract.config_module(extract.codepage()),
+                 "VyEmitData.tla": emit.data_module(),
+                 "VyEscapeData.tla": c18.escape_data_module()}
         d = tlc.stage(s, extra)
         mods = sorted(os.path.basename(p) for p in glob.glob(os.path.join(d, "*.tla")))
         for m in mods:
